@@ -92,7 +92,7 @@ theorem safe_evalExpr {n : Nat} (ih : SafeAll n) (σ : State) (sc : List Addr) (
     exact Safe.ok hw3 he3 (SValOK.plain ht3)
   | Object props =>
     dsimp only []
-    apply Safe.bind (ih.evalProps _ _ _ _ _ hw hs ObjOK.nil); intro m σ1 hw1 he1 hm
+    apply Safe.bind (ih.evalProps _ _ _ _ _ hw hs ObjOK.nil Sorted.nil); intro m σ1 hw1 he1 hm
     rcases h : σ1.alloc (.obj m) with ⟨na, σ2⟩
     obtain ⟨hw2, he2, ht2⟩ := alloc_spec h hw1 (c := .obj m) hm
     exact Safe.ok hw2 he2 (SValOK.plain ht2)
@@ -148,10 +148,11 @@ theorem safe_evalListItems {n : Nat} (ih : SafeAll n) (σ : State) (sc : List Ad
       · exact Safe.errAt
 
 theorem safe_evalProps {n : Nat} (ih : SafeAll n) (σ : State) (sc : List Addr) (objLoc : Loc) (props : List PropItem) (acc : ObjMap)
-    (hw : WF σ) (hs : ScOK σ sc) (ha : ObjOK σ acc) : Safe ObjOK σ (evalProps (n + 1) σ sc objLoc props acc) := by
+    (hw : WF σ) (hs : ScOK σ sc) (ha : ObjOK σ acc) (hso : Sorted acc) :
+    Safe (fun σ' m => ObjOK σ' m ∧ Sorted m) σ (evalProps (n + 1) σ sc objLoc props acc) := by
   unfold evalProps
   cases props with
-  | nil => exact Safe.ok_same hw ha
+  | nil => exact Safe.ok_same hw ⟨ha, hso⟩
   | cons p r =>
     cases p with
     | Pair nameE value =>
@@ -159,6 +160,7 @@ theorem safe_evalProps {n : Nat} (ih : SafeAll n) (σ : State) (sc : List Addr) 
       apply Safe.bind (ih.evalToStr _ _ _ _ hw hs); intro name σ1 hw1 he1 _
       apply Safe.bind (ih.evalExpr _ _ _ hw1 (hs.mono he1)); intro v σ2 hw2 he2 hv
       exact ih.evalProps _ _ _ _ _ hw2 (hs.mono (he1.trans he2)) (objInsert_ok (ha.mono (he1.trans he2)) hv)
+        (objInsert_sorted hso)
     | Single e spread collect =>
       dsimp only []
       split
@@ -170,10 +172,12 @@ theorem safe_evalProps {n : Nat} (ih : SafeAll n) (σ : State) (sc : List Addr) 
             obtain ⟨m, hm⟩ := getObj_of_tag (hv.1.obj_tag heq)
             rw [hm]; dsimp only []
             exact ih.evalProps _ _ _ _ _ hw1 (hs.mono he1) (objInsert_foldl_ok m (hw1.obj hm) (ha.mono he1))
+              (objInsert_foldl_sorted m hso)
           · exact Safe.errAt
         · split
           · split
             · exact ih.evalProps _ _ _ _ _ hw hs (objInsert_ok ha (scopeGet_ok hw (by assumption)))
+                (objInsert_sorted hso)
             · exact Safe.errAt
           · exact Safe.errAt
 
